@@ -156,6 +156,7 @@ func (ps *ProcessSet) run(ctx context.Context) {
 						process, err := NewProcess(waitingProcess, ps.definitions, append(ps.sourceOptions, WithTracer(subTracer))...)
 						if err != nil {
 							ps.tracer.Send(ErrorTrace{Error: err})
+							ps.wg.Done()
 							continue
 						}
 
@@ -166,6 +167,7 @@ func (ps *ProcessSet) run(ctx context.Context) {
 						err = process.StartWith(ctx, startFlowNode)
 						if err != nil {
 							ps.tracer.Send(ErrorTrace{Error: err})
+							ps.wg.Done()
 							continue
 						}
 					}
@@ -174,6 +176,7 @@ func (ps *ProcessSet) run(ctx context.Context) {
 						cancel()
 					}
 				}
+				ps.wg.Done()
 			}
 		case <-ps.done:
 			ps.tracer.Send(CeaseProcessSetTrace{Definitions: ps.definitions})
@@ -205,6 +208,10 @@ LOOP:
 			case *schema.ThrowEvent:
 				eventId, ok := evt.Id()
 				if ok {
+					// count the pending hand-off: the set must not be reported complete
+					// (nor its run loop stop) between this process ending and the run
+					// loop instantiating the message flow's target
+					wg.Add(1)
 					ps.mch <- throwMessage{Id: *eventId}
 				}
 			}
